@@ -324,7 +324,7 @@ func defaultFuncs() map[string]string {
 		"string": "string", "number": "number", "bool": "bool",
 		"p1": "id", "p2": "id", "boom": "boom", "noret": "noret", "bump": "bump",
 		"dice": "dice", "random_range": "random_range",
-		"cstr": "idstr", "cbool": "idbool", "cint": "idint",
+		"cstr": "idstr", "cbool": "idbool", "cint": "idint", "cadd": "add2", "csum": "sumv",
 		"floor": "floor", "ceil": "ceil", "round": "round", "inc": "inc", "dec": "dec", "integer": "integer", "decimal": "decimal",
 	}
 }
